@@ -2,6 +2,7 @@ package apph
 
 import (
 	"bytes"
+	"encoding/hex"
 	"encoding/json"
 	"fmt"
 	"math/rand"
@@ -9,6 +10,8 @@ import (
 	"os/exec"
 	"path/filepath"
 	"reflect"
+	"sort"
+	"strings"
 )
 
 // Perturb describes what is done to a recorded history when it is executed again on another real
@@ -23,6 +26,8 @@ type Perturb struct {
 
 type PerturbStats struct {
 	Restarts, Checks, ChecksPassed, Queries, Boundaries int
+	FreshChecks, FreshPassed, QueriesCompared           int
+	QueryMismatch                                       []string
 	CheckPanics, QueryPanics                            []string
 	InfoMismatch                                        []string
 }
@@ -77,10 +82,78 @@ func RerunPerturbed(h *History, scratch, label string, p Perturb) (*History, *Pe
 		pool = append(pool, b.Txs...)
 	}
 	pool = append(pool, p.ExtraCheck...)
+	// fresh mempool traffic: transactions signed now, with the nonce the mempool side expects,
+	// that pass CheckTx and are NEVER delivered (a real mempool holds such transactions all the time)
+	var labels []string
+	for l := range h.Keys {
+		labels = append(labels, l)
+	}
+	sort.Strings(labels)
+	pendingNonce := map[string]uint64{}
+	fresh := func(height int64) {
+		if height < 2 || len(labels) == 0 {
+			return
+		}
+		key := h.Keys[labels[rng.Intn(len(labels))]]
+		watch := [][]byte{key.Addr}
+		for _, v := range h.Genesis.Vals {
+			watch = append(watch, v.Key.Addr)
+		}
+		sn, err := n.Snapshot(height-1, watch, nil)
+		if err != nil || len(sn.Accts) == 0 {
+			return
+		}
+		t := &TxSpec{Type: 1, From: key.Addr, To: watch[rng.Intn(len(watch))], Amount: "1", GasPrice: sn.Params.GasPrice,
+			Gas: sn.Params.MinTrxGas + 1, Nonce: sn.Accts[0].Nonce + pendingNonce[string(key.Addr)],
+			Time: int64(1_800_000_000_000_000_000) + int64(st.Checks), SignerLabel: key.Name, Note: "noise-fresh"}
+		switch rng.Intn(4) {
+		case 0: // transfer
+		case 1: // stake to self or to a validator
+			t.Type, t.Amount = 2, rigo(int64(1+rng.Intn(3)))
+			if rng.Intn(2) == 0 {
+				t.To = key.Addr
+			}
+		default: // release one of the sender's stakes (twice as likely: this is what moves stakes between ledgers)
+			var own []StakeView
+			for _, d := range sn.Dels {
+				if d == nil {
+					continue
+				}
+				for _, s0 := range d.Stakes {
+					if string(s0.From) == string(key.Addr) {
+						own = append(own, s0)
+					}
+				}
+			}
+			if len(own) == 0 {
+				return
+			}
+			s0 := own[rng.Intn(len(own))]
+			t.Type, t.To, t.UnstakeHash, t.Amount = 3, s0.To, s0.Hash, "0"
+		}
+		bt, err := Build(t, h.Keys, h.Genesis.ChainID)
+		if err != nil {
+			return
+		}
+		code, pn := n.Check(bt.Bytes)
+		st.Checks++
+		st.FreshChecks++
+		if pn != "" {
+			st.CheckPanics = append(st.CheckPanics, pn)
+		} else if code == 0 {
+			st.ChecksPassed++
+			st.FreshPassed++
+			pendingNonce[string(key.Addr)]++
+		}
+	}
+	committed := int64(0) // latest committed height on this node
 	noise := func(height int64) {
 		st.Boundaries++
 		if !p.Noise {
 			return
+		}
+		if rng.Intn(3) == 0 {
+			fresh(height)
 		}
 		for k := rng.Intn(3); k > 0; k-- {
 			switch rng.Intn(5) {
@@ -117,10 +190,31 @@ func RerunPerturbed(h *History, scratch, label string, p Perturb) (*History, *Pe
 				if height > 1 && rng.Intn(2) == 0 {
 					hq = 1 + rng.Int63n(height)
 				}
-				_, pn := n.Query(path, data, hq)
+				rq, pn := n.Query(path, data, hq)
 				st.Queries++
 				if pn != "" {
 					st.QueryPanics = append(st.QueryPanics, fmt.Sprintf("%s h=%d: %s", path, hq, pn))
+				} else {
+					// the answer must be the one the quiet node gave for that committed height at the
+					// end of its run, whatever the mempool side has seen since
+					eff := hq
+					if eff == 0 {
+						eff = committed
+					}
+					if eff >= 1 && eff <= committed && int(eff) <= len(h.Snaps) && h.Snaps[eff-1] != nil {
+						if want, ok := h.Snaps[eff-1].Raw[path+"|"+hex.EncodeToString(data)]; ok {
+							st.QueriesCompared++
+							wc, wv := want, ""
+							if i := strings.Index(want, ":"); i >= 0 {
+								wc, wv = want[:i], want[i+1:]
+							}
+							got := fmt.Sprintf("%d:%s", rq.Code, canonJSON(rq.Value))
+							if got != wc+":"+canonJSON([]byte(wv)) {
+								st.QueryMismatch = append(st.QueryMismatch, fmt.Sprintf("%s key=%x asked height=%d (latest committed %d) while block %d was being processed, after %d passed mempool checks: got %.300s want %.300s",
+									path, data, hq, committed, height, st.ChecksPassed, got, wc+":"+canonJSON([]byte(wv))))
+							}
+						}
+					}
 				}
 			}
 		}
@@ -156,6 +250,10 @@ func RerunPerturbed(h *History, scratch, label string, p Perturb) (*History, *Pe
 		o.TreeOps, o.Writes = lastTreeOps, lastWrites
 		o.Frozen = n.FrozenStakes()
 		out.Obs = append(out.Obs, o)
+		committed = b.Height
+		for k := range pendingNonce { // Commit resets the mempool-side state
+			delete(pendingNonce, k)
+		}
 		noise(b.Height + 1)
 		if p.RestartAfter[b.Height] && bi < len(h.Blocks)-1 {
 			// the process stops after this commit and starts again from what is on disk
